@@ -112,6 +112,15 @@ def m_binding_ident_deref(it, ctx, a, m, f):
     return Ref(b.fields, b.names.index('id'))
 
 
+@model(r'^Span::(with_hi|with_lo)$')
+def m_span_with(it, ctx, a, m, f):
+    sp = deref(a[0]); v = deref(a[1])
+    if isinstance(v, Adt):
+        v = v.fields[0]
+    lo, hi = sp.fields[0], sp.fields[1]
+    return Adt('Span', None, [lo, v] if m.group(1) == 'with_hi' else [v, hi], ['lo', 'hi'])
+
+
 @model(r'^Span::dummy_with_cmt$')
 def m_dummy_with_cmt(it, ctx, a, m, f):
     n = ctx.__dict__.get('dummy_cnt', 0xFFFF0000)
@@ -958,6 +967,12 @@ def m_take(it, ctx, a, m, f):
         r.set([])
     elif isinstance(v, Adt) and v.ty == 'Option':
         r.set(NoneV())
+    elif isinstance(v, bool) or (is_sym(v) and z3.is_bool(v)):
+        r.set(False)
+    elif isinstance(v, int):
+        r.set(0)
+    elif isinstance(v, SStr):
+        r.set(SStr(()))
     else:
         raise Unsupported('mem::take of ' + repr(v)[:60])
     return v
@@ -1044,6 +1059,19 @@ def m_clear(it, ctx, a, m, f):
 @model(r'^Vec::<.*>::truncate$')
 def m_truncate(it, ctx, a, m, f):
     v = L(a[0]); del v[a[1]:]; return []
+
+
+@model(r'^Vec::<.*>::dedup_by::<')
+def m_dedup_by(it, ctx, a, m, f):
+    """same_bucket(&mut a, &mut b): a is the later element, b the kept earlier one; a is removed when it returns true"""
+    v = L(a[0])
+    i = 1
+    while i < len(v):
+        if ctx.decide(it.call_closure(ctx, a[1], [Ref(v, i), Ref(v, i - 1)])):
+            del v[i]
+        else:
+            i += 1
+    return []
 
 
 @model(r'^Vec::<.*>::split_off$')
@@ -1201,12 +1229,15 @@ def m_entry_or_insert(it, ctx, a, m, f):
     e = a[0]
     if e.variant == 'Occupied':
         return Ref(e.fields[0], 1)
-    mp, key = e.fields[0]
+    mp, key = e.fields[0][0], e.fields[0][1]
     kind = m.group(1)
     v = a[1] if kind == 'or_insert' else it.call_closure(ctx, a[1], []) if kind == 'or_insert_with' else None
     if kind == 'or_default':
         raise Unsupported('Entry::or_default')
     ent = [key, v]
+    if len(e.fields[0]) > 2 and e.fields[0][2] == 'append':       # insertion-ordered map
+        mp.append(ent)
+        return Ref(ent, 1)
     i = 0
     while i < len(mp) and ctx.decide(s_lt(S(mp[i][0]), S(key))):
         i += 1
@@ -1756,6 +1787,15 @@ def m_map_new(it, ctx, a, m, f):
     return []
 
 
+@model(r'^IndexMap::<.*>::entry$')
+def m_imap_entry(it, ctx, a, m, f):
+    mp = L(a[0]); key = a[1]
+    for e in mp:
+        if ctx.decide(struct_eq(ctx, e[0], key)):          # derived Eq of the key type (spans included)
+            return Adt('Entry', 'Occupied', [e])
+    return Adt('Entry', 'Vacant', [[mp, key, 'append']])
+
+
 @model(r'^BTreeMap::<.*>::entry$')
 def m_map_entry(it, ctx, a, m, f):
     mp = L(a[0]); key = a[1]
@@ -1770,9 +1810,12 @@ def m_entry_or_insert_with_key(it, ctx, a, m, f):
     e = a[0]
     if e.variant == 'Occupied':
         return Ref(e.fields[0], 1)
-    mp, key = e.fields[0]
+    mp, key = e.fields[0][0], e.fields[0][1]
     v = it.call_closure(ctx, a[1], [mkref(key)])
     ent = [key, v]
+    if len(e.fields[0]) > 2 and e.fields[0][2] == 'append':
+        mp.append(ent)
+        return Ref(ent, 1)
     i = 0
     while i < len(mp) and ctx.decide(s_lt(S(mp[i][0]), S(key))):
         i += 1
